@@ -773,6 +773,416 @@ def run_sessions(ml, ctx, rep, n_sessions):
     return scases, specs
 
 
+# ------------------------------------------------------------------ SIZE family
+# Geometries / ensembles / multi-frame texts whose atom count or frame count sits at and around plausible internal block
+# lengths (powers of two, decimal powers, their multiples), a contiguous sweep of small counts, and random counts in
+# between.  The atoms follow the deterministic pattern of Model/XyzSize.v (pat_elem / pat_dec), which both sides expand:
+# only (n, element seed, coordinate seed) travels.  Every text is judged (a) as text: count line, comment, exactly that
+# many records, ... until the text ends, every record four tokens that mean the atom written; (b) by reading it back
+# through every reader entry point, first-frame ones and all-frames ones; (c) inside Coq: character by character against
+# the model writer, the model reader against what Molecule.loads_all_xyz returned, and the text-level reading.
+SIZE_CLASSES = ["CartesianGeometry", "Structure", "Molecule"]
+SIZE_HOW = ["dumps_xyz", "dump_xyz:stream", "dump_xyz:file", "ml.dumps", "ml.dump:path"]
+SIZE_NAME = "size family"
+
+
+def pat_elem(es, i):
+    return 1 + (i * 7 + es) % 118
+
+
+def pat_dec(cs, i, ax):
+    return ((i // 3 + ax + cs) % 2 == 1,
+            (i * i * 7919 + i * 104729 * (ax + 1) + cs * 1299709 + ax * 15485863) % 10 ** (4 + (i + ax) % 7))
+
+
+_PAT_FLOATS = {}        # (neg, mag) -> float whose nearest micro-unit is exactly (neg, mag)   [checked once with fractions]
+_FLOAT_DECS = {}        # the inverse, for the observations
+
+
+def pat_val(d):
+    x = _PAT_FLOATS.get(d)
+    if x is None:
+        x = d[1] / 1e6
+        if d[0]:
+            x = -x
+        num, den = abs(x).as_integer_ratio()          # exact: |x| = num / den;  nearest micro-unit of x is d[1]  <=>  2 |num 10^6 - mag den| < den
+        if not 2 * abs(num * 10 ** 6 - d[1] * den) < den or (math.copysign(1.0, x) < 0) != d[0]:
+            raise AssertionError(f"pattern value {d} is not representable: {x!r}")
+        _PAT_FLOATS[d] = x
+        _FLOAT_DECS[(x, d[0])] = d
+    return x
+
+
+def dec_cached(x):
+    d = _FLOAT_DECS.get((x, math.copysign(1.0, x) < 0)) if x == x else None
+    return d if d is not None else dec_of(x)
+
+
+def pat_frame(fr):
+    """(elements, dummy flags, coordinate rows) of one frame spec [n, es, cs]."""
+    n, es, cs = fr
+    return ([pat_elem(es, i) for i in range(n)], [False] * n,
+            [tuple(pat_val(pat_dec(cs, i, ax)) for ax in range(3)) for i in range(n)])
+
+
+def size_points(thorough):
+    pts = set()
+    for k in range(4, 13 if not thorough else 15):
+        pts |= {2 ** k - 1, 2 ** k, 2 ** k + 1}
+    for b in (100, 1000) + ((10000,) if thorough else ()):
+        pts |= {b - 1, b, b + 1}
+    pts |= {3 * 256 - 1, 3 * 256, 3 * 256 + 1, 2000, 3 * 1024}
+    if thorough:
+        pts |= {m * b + d for b in (64, 100, 128, 250, 256, 500, 512, 1000, 1024, 4096) for m in (2, 3, 5) for d in (-1, 0, 1)}
+    return sorted(pts)
+
+
+def gen_size_specs(rng, thorough):
+    """jsonable specs: kind single | ens | multi | sweep, frames [[n, es, cs], ...], class(es), way of writing."""
+    specs = []
+    pts = size_points(thorough)
+    seed = lambda: rng.randrange(1, 10 ** 6)
+    how_for = lambda cls: [h for h in SIZE_HOW if not h.startswith("ml.") or cls in ("Molecule", "ConformerEnsemble")]
+    # single geometries at the points (every point with a class and a way of writing of its own), and at random counts
+    for j, n in enumerate(pts + [rng.randint(18, 3000 if not thorough else 20000) for _ in range(6 if not thorough else 60)]):
+        cls = SIZE_CLASSES[(j + rng.randrange(3)) % 3]
+        specs.append({"kind": "single", "classes": [cls], "how": rng.choice(how_for(cls)), "frames": [[n, seed(), seed()]],
+                      "random": j >= len(pts)})
+    # the block multiples once more through the class the ensembles use, by the plain call
+    # (`full`: read back through EVERY entry point; the other cases meet a rotating selection of them)
+    for n in (64, 128, 256, 512, 1024, 4096):
+        specs.append({"kind": "single", "classes": ["Molecule"], "how": "dumps_xyz", "frames": [[n, seed(), seed()]], "full": n <= 1024})
+    # ensembles: many atoms x few frames, few atoms x many frames, and products whose TOTAL record count is a block multiple
+    shapes = [(n, k) for n in (64, 128, 255, 256, 257, 512, 1024) for k in (2, 3)]
+    shapes += [(1 + 2 * (j % 2), k) for j, k in enumerate((63, 64, 65, 127, 128, 129, 255, 256, 257, 511, 512, 513, 1000, 1023, 1024, 1025))]
+    shapes += [(16, 16), (32, 8), (8, 32), (64, 4), (32, 32), (64, 16), (14, 18), (62, 4), (30, 8)]   # last three: (n + 2) * k lines
+    if thorough:
+        shapes += [(256, 256), (4096, 2), (4096, 3), (2, 4096), (2, 4097), (1, 8192), (1000, 10), (10, 1000), (100, 100)]
+        shapes += [(rng.randint(2, 300), rng.randint(2, 300)) for _ in range(30)]
+    else:
+        shapes += [(rng.randint(2, 120), rng.randint(2, 120)) for _ in range(4)]
+    for n, k in shapes:
+        es = seed()
+        specs.append({"kind": "ens", "classes": ["ConformerEnsemble"], "how": rng.choice(how_for("ConformerEnsemble")),
+                      "frames": [[n, es, seed()] for _ in range(k)], "full": (n, k) in ((256, 2), (64, 3), (3, 64), (1, 256), (16, 16))})
+    # multi-frame texts written object by object into ONE stream: frame counts at the points, small different frames
+    for k in (255, 256, 257, 1023, 1024, 1025) + ((4095, 4096, 4097) if thorough else ()):
+        specs.append({"kind": "multi", "classes": [rng.choice(SIZE_CLASSES) for _ in range(k)],
+                      "how": rng.choice(["dumps_xyz", "dump_xyz:stream", "dump_xyz:file"]),
+                      "frames": [[rng.randint(0, 3), seed(), seed()] for _ in range(k)], "full": k == 256})
+    # frames of block-multiple size FOLLOWED by other frames (what a surplus or a lost record does to its successor)
+    for n in (64, 128, 256, 512):
+        specs.append({"kind": "multi", "classes": [SIZE_CLASSES[(n // 64 + q) % 3] for q in range(3)], "how": "dump_xyz:stream",
+                      "frames": [[n, seed(), seed()], [rng.randint(1, 5), seed(), seed()], [n + 1, seed(), seed()]], "full": n == 128})
+    # contiguous sweep: EVERY atom count 0..N (whatever the block length, its first multiples are met)
+    top = 260 if not thorough else 1300
+    for n in range(0, top + 1):
+        specs.append({"kind": "sweep", "classes": [SIZE_CLASSES[n % 3]], "how": "dumps_xyz", "frames": [[n, 1 + n % 7, 1 + n % 11]]})
+    return specs
+
+
+def size_build(ml, spec, orig=None):
+    """The real objects of one spec, built through molli's constructors and accessors."""
+    orig = orig or [pat_frame(f) for f in spec["frames"]]
+    import numpy as np
+    from molli.chem import Molecule, Structure, CartesianGeometry, ConformerEnsemble, Element
+    cl = {"Molecule": Molecule, "Structure": Structure, "CartesianGeometry": CartesianGeometry}
+
+    def geom(cls, fr, o):
+        el, _, co = o
+        g = cls(n_atoms=fr[0], name=SIZE_NAME)
+        for a, z in zip(g.atoms, el):
+            a.element = Element(z)
+        g.coords = np.array(co, dtype=float).reshape(-1, 3)
+        return g
+
+    if spec["kind"] == "ens":
+        frs = spec["frames"]
+        e = ConformerEnsemble(geom(Molecule, frs[0], orig[0]), n_conformers=len(frs), name=SIZE_NAME)
+        e.coords = np.array([o[2] for o in orig], dtype=float).reshape(len(frs), frs[0][0], 3)
+        return [e]
+    return [geom(cl[c], f, o) for c, f, o in zip(spec["classes"], spec["frames"], orig)]
+
+
+def size_write(ml, ctx, spec, objs):
+    how = spec["how"]
+    if how == "dumps_xyz":
+        return "".join(o.dumps_xyz() for o in objs)
+    if how == "ml.dumps":
+        return "".join(ml.dumps(o, "xyz") for o in objs)
+    if how == "dump_xyz:stream":
+        buf = io.StringIO()
+        for o in objs:
+            o.dump_xyz(buf)
+        return buf.getvalue()
+    path = os.path.join(ctx.sub("size"), "written.xyz")
+    if how == "dump_xyz:file":
+        with open(path, "w") as f:
+            for o in objs:
+                o.dump_xyz(f)
+    elif how == "ml.dump:path":
+        assert len(objs) == 1
+        ml.dump(objs[0], path, "xyz", mode="w")
+    else:
+        raise ValueError(how)
+    return open(path).read()
+
+
+def text_frames(text):
+    """The text as a reader of xyz files sees it, without molli: (frames [(count, comment, record lines)], None) or (None, why)."""
+    lines = c10.to_lines(text)
+    i, frames = 0, []
+    while i < len(lines):
+        try:
+            n = int(lines[i])
+        except ValueError:
+            if not frames:
+                return None, ("count-line", f"line {i + 1}: the text does not start with a count line: {lines[i][:50]!r}")
+            return None, ("surplus-lines", f"line {i + 1}: frame {len(frames)} is complete ({frames[-1][0]} records under a header of "
+                                           f"{frames[-1][0]}) and a count line or the end of the text must follow, but the text "
+                                           f"goes on with {lines[i][:50]!r} (lines outside every frame)")
+        if n < 0 or i + 2 + n > len(lines):
+            return None, ("truncated", f"frame {len(frames) + 1} declares {n} records at line {i + 1}, only {max(len(lines) - i - 2, 0)} line(s) follow")
+        frames.append((n, lines[i + 1], lines[i + 2:i + 2 + n]))
+        i += 2 + n
+    return frames, None
+
+
+_ELEM_Z = {}
+
+
+def judge_text(ml, text, orig):
+    """Oracle on the written text alone: one frame per geometry, header count = records = atoms, every record means its atom."""
+    from molli.chem import Element
+    if not _ELEM_Z:
+        for e in Element:
+            _ELEM_Z[e.symbol.capitalize()] = int(e.z)
+    frames, why = text_frames(text)
+    if frames is None:
+        return (f"C08:xyz:size:text:{why[0]}", why[1])
+    if len(frames) != len(orig):
+        return ("C08:xyz:size:text:frame-count", f"{len(orig)} geometr(y/ies) written, the text holds {len(frames)} frame(s)")
+    for k, ((n, _cm, recs), (el, _du, co)) in enumerate(zip(frames, orig)):
+        if n != len(el):
+            return ("C08:xyz:size:text:header-count", f"frame {k}: {len(el)} atoms, the header says {n}")
+        for i, (line, z, p) in enumerate(zip(recs, el, co)):
+            tk = line.split()
+            if len(tk) != 4:
+                return ("C08:xyz:size:text:record-tokens", f"frame {k} record {i}: {line[:60]!r} is not four tokens")
+            if _ELEM_Z.get(tk[0].capitalize()) != z:
+                return ("C08:xyz:size:text:element", f"frame {k} record {i}: element {z} written as {tk[0]!r}")
+            for a, s in zip(p, tk[1:]):
+                try:
+                    b = float(s)
+                except ValueError:
+                    return ("C08:xyz:size:text:record-tokens", f"frame {k} record {i}: {s!r} is not a number")
+                if not abs(a - b) <= 0.5000001e-6 + 1e-12 * abs(a):
+                    return ("C08:xyz:size:text:coordinate", f"frame {k} record {i}: {a!r} written as {s!r}")
+    return None
+
+
+def size_sig(g):
+    import numpy as np
+    return (int(g.n_atoms), [int(a.element.z) for a in g.atoms], np.asarray(g.coords, dtype=float).reshape(-1, 3))
+
+
+def size_readers(ml, ctx, text, homogeneous):
+    """(api, mode, thunk): every entry point that reads xyz -- mode first (one geometry), all (every frame), ens."""
+    from molli.chem import Molecule, Structure, CartesianGeometry, ConformerEnsemble
+    path = os.path.join(ctx.sub("size"), "readback.xyz")
+    with open(path, "w") as f:
+        f.write(text)
+    S = lambda: io.StringIO(text)
+    sg = lambda ms: [size_sig(m) for m in ms]
+    es = lambda e: [(int(e.n_atoms), [int(a.element.z) for a in e.atoms], e.coords[k]) for k in range(e.n_conformers)]
+    out = []
+    for cls in (Molecule, CartesianGeometry, Structure):
+        c = cls.__name__
+        out += [(f"{c}.loads_all_xyz", "all", lambda cls=cls: sg(cls.loads_all_xyz(text))),
+                (f"{c}.loads_xyz", "first", lambda cls=cls: sg([cls.loads_xyz(text)])),
+                (f"{c}.load_all_xyz:path", "all", lambda cls=cls: sg(cls.load_all_xyz(path))),
+                (f"{c}.load_xyz:path", "first", lambda cls=cls: sg([cls.load_xyz(path)])),
+                (f"{c}.load_all_xyz:stream", "all", lambda cls=cls: sg(cls.load_all_xyz(S()))),
+                (f"{c}.load_xyz:stream", "first", lambda cls=cls: sg([cls.load_xyz(S())])),
+                (f"{c}.yield_from_xyz", "all", lambda cls=cls: sg(list(cls.yield_from_xyz(S()))))]
+    out += [("ml.load_all", "all", lambda: sg(ml.load_all(path, "xyz"))), ("ml.loads_all", "all", lambda: sg(ml.loads_all(text, "xyz"))),
+            ("ml.load", "first", lambda: sg([ml.load(path, "xyz")])), ("ml.loads", "first", lambda: sg([ml.loads(text, "xyz")]))]
+    if homogeneous:
+        out += [("ConformerEnsemble.loads_xyz", "ens", lambda: es(ConformerEnsemble.loads_xyz(text))),
+                ("ConformerEnsemble.load_xyz:path", "ens", lambda: es(ConformerEnsemble.load_xyz(path))),
+                ("ConformerEnsemble.load_xyz:stream", "ens", lambda: es(ConformerEnsemble.load_xyz(S()))),
+                ("ml.load:ensemble", "ens", lambda: es(ml.load(path, "xyz", otype="ensemble"))),
+                ("ml.loads:ensemble", "ens", lambda: es(ml.loads(text, "xyz", otype="ensemble")))]
+    return out
+
+
+def judge_size_read(api, mode, orig, r):
+    import numpy as np
+    tag = f"C08:xyz:size:{api}"
+    if r[0] == "hang":
+        return (f"{tag}:no-termination", f"{api} did not return")
+    if r[0] == "err":
+        return (f"{tag}:cannot-read-back:{r[1]}", f"the text written by molli is rejected by {api}: {r[1]}")
+    want = orig[:1] if mode == "first" else orig
+    got = r[1]
+    if len(got) != len(want):
+        return (f"{tag}:frame-count", f"{len(orig)} frame(s) written, {api} returned {len(got)}")
+    for k, ((el, _du, co), (n, gel, gco)) in enumerate(zip(want, got)):
+        if n != len(el) or gel != el:
+            return (f"{tag}:elements", f"frame {k}: {len(el)} atoms {el[:6]}... written, {n} atoms {gel[:6]}... read")
+        a, b = np.array(co, dtype=float).reshape(-1, 3), np.asarray(gco, dtype=float).reshape(-1, 3)
+        if a.shape != b.shape:
+            return (f"{tag}:coordinates", f"frame {k}: coordinate block of shape {b.shape} for {len(el)} atoms")
+        if a.size and not bool(np.all(np.abs(a - b) <= 0.5000001e-6 + 1e-12 * np.abs(a))):
+            i = int(np.argmax(np.abs(a - b).max(axis=1)))
+            return (f"{tag}:coordinates", f"frame {k} atom {i}: written {a[i].tolist()} read {b[i].tolist()}")
+    return None
+
+
+def size_case(ml, ctx, spec, reader_pick=None):
+    """Runs one spec.  Returns (violation or None, text, observation of Molecule.loads_all_xyz, apis used)."""
+    orig = [pat_frame(f) for f in spec["frames"]]
+    w = c10.run_limited(lambda: size_write(ml, ctx, spec, size_build(ml, spec, orig)), limit=30)
+    if w[0] != "ok":
+        return ((f"C08:xyz:size:cannot-write:{w[1] if w[0] == 'err' else 'no-termination'}", f"writing failed: {w}"), None, None, [])
+    text = w[1]
+    v = judge_text(ml, text, orig)
+    homogeneous = len({(f[0], f[1]) for f in spec["frames"]}) == 1
+    readers = size_readers(ml, ctx, text, homogeneous)
+    if reader_pick is not None:
+        readers = reader_pick(readers)
+    obs, used = None, []
+    for api, mode, fn in readers:
+        r = c10.run_limited(fn, limit=30)
+        used.append((api, mode))
+        if api == "Molecule.loads_all_xyz":
+            obs = r
+        if v is None:
+            v = judge_size_read(api, mode, orig, r)
+    return v, text, obs, used
+
+
+def pack_line(s):
+    b = s.encode("ascii")
+    return "[" + "; ".join(str(int.from_bytes(b"\x01" + b[i:i + 7], "big")) for i in range(0, len(b), 7)) + "]"
+
+
+def pack_dec(x):
+    try:
+        neg, mag = dec_cached(float(x))
+    except (ValueError, OverflowError):
+        return str(2 ** 62 - 1)
+    return str(min(2 * mag + (1 if neg else 0), 2 ** 62 - 1))
+
+
+def size_term(spec, text, obs):
+    """Packed Coq case (Model.XyzSize.pcase), or None when the text is not plain ASCII."""
+    lines = c10.to_lines(text)
+    if not all(all(32 <= ord(c) < 127 for c in l) for l in lines):
+        return None
+    if obs is None or obs[0] != "ok":
+        o = "None"
+    else:
+        o = "(Some [" + ";\n ".join("[" + "; ".join(f"({z}, {pack_dec(c[0])}, {pack_dec(c[1])}, {pack_dec(c[2])})" for z, c in zip(el, co)) + "]"
+                                    for _n, el, co in obs[1]) + "])"
+    frs = "[" + "; ".join(f"({n}, {es}, {cs})" for n, es, cs in spec["frames"]) + "]"
+    return f"({pack_line(SIZE_NAME)}, {frs},\n [" + ";\n ".join(pack_line(l) for l in lines) + f"],\n {o})"
+
+
+HEAD_Z = ("From Coq Require Import List ZArith NArith String Ascii Uint63.\n"
+          "From Molli Require Import Common.ParseStr Model.Parse Model.XyzText Model.XyzSize Gen.XyzElements.\n"
+          "Import ListNotations.\nOpen Scope uint63_scope.\n")
+
+
+def run_size(ml, ctx, rep):
+    """The whole family: oracle on everything, Coq on the cases that fit the literal budget.  Returns (bins, bin specs)."""
+    rng = ctx.rng
+    specs = gen_size_specs(rng, ctx.thorough)
+    # atom records shipped to Coq in this run, per kind (the rest of the family is judged by the oracle only)
+    scale = 1 if not ctx.thorough else 10
+    budget = {"single": 16500 * scale, "ens": 7000 * scale, "multi": 3000 * scale, "sweep": 2500 * scale}
+    per_case = 4200 if not ctx.thorough else 17000
+    rot = {"all": 0, "other": 0}
+    coq_cases = []
+    reported = set()
+    for spec in specs:
+        kind = spec["kind"]
+        nrec = sum(f[0] for f in spec["frames"])
+        nmax = max(f[0] for f in spec["frames"])
+        k = len(spec["frames"])
+        n0 = spec["frames"][0][0]
+        fits = {"single": n0 <= 1025 or n0 == 4096 or spec.get("random"), "ens": nrec <= 1100, "multi": True,
+                "sweep": n0 % 64 in (0, 1, 63)}[kind]
+        want_coq = bool(fits and nrec <= per_case and nrec <= budget[kind])
+
+        def pick(readers, kind=kind, nrec=nrec, want_coq=want_coq, full=spec.get("full") or ctx.thorough and kind != "sweep" and nrec <= 3000):
+            # `full` cases: every entry point.  Otherwise: the reader the Coq comparison observes (when the case goes to Coq)
+            # and a rotating selection -- always at least one all-frames reader -- so that over the run every entry point
+            # meets every size class.
+            if full:
+                return readers
+            alls = [r for r in readers if r[1] == "all" and r[0] != "Molecule.loads_all_xyz"]
+            others = [r for r in readers if r[1] != "all"]
+            na, no = (1, 1) if kind == "sweep" else (1, 2) if nrec > 1300 else (2, 3)
+            out = [r for r in readers if r[0] == "Molecule.loads_all_xyz"] if want_coq else []
+            for lst, cnt, key in ((alls, na, "all"), (others, no, "other")):
+                for _ in range(cnt):
+                    out.append(lst[rot[key] % len(lst)])
+                    rot[key] += 1
+            return out
+
+        v, text, obs, used = size_case(ml, ctx, spec, pick)
+        rep.case(key=f"size:{kind}:{spec['how']}:{spec['classes'][0]}:" + json.dumps(spec["frames"][:4]) + f":{k}",
+                 sample={"kind": "size:" + kind, "how": spec["how"], "frames": k, "atoms": nmax})
+        rep.count(f"size:{kind}")
+        rep.count(f"size:how={spec['how']}")
+        if kind != "sweep":
+            rep.count(f"size:{kind}:atoms={nmax}" if kind == "single" else f"size:{kind}:atoms~{size_bucket(nmax)}:frames~{size_bucket(k)}")
+        for c in set(spec["classes"]):
+            rep.count(f"size:class={c}")
+        for api, mode in used:
+            rep.count(f"size:read:{mode}:{api}")
+        if len(used) > 20:
+            rep.count("size:read:every-entry-point")
+        if v:
+            if v[0] not in reported and len(reported) < 25:         # one replayable witness per signature
+                rep.violate(v[0], f"{size_describe(spec)}: {v[1]}", {"kind": "size", "spec": spec})
+            reported.add(v[0])
+            rep.count("size:violating-cases")
+        term = size_term(spec, text, obs) if text is not None and want_coq else None
+        if term is not None:
+            budget[kind] -= nrec
+            coq_cases.append((nrec + 2 * k + 5, term, spec))
+            rep.count(f"size:coq:{kind}")
+        else:
+            rep.count(f"size:oracle-only:{kind}")
+    # weight-balanced bins, one shard each
+    nb = 12 if not ctx.thorough else 32
+    bins = [[0, [], []] for _ in range(max(1, min(nb, len(coq_cases))))]
+    for wgt, term, spec in sorted(coq_cases, key=lambda c: -c[0]):
+        b = min(bins, key=lambda b: b[0])
+        b[0] += wgt
+        b[1].append(term)
+        b[2].append(spec)
+    return ["[" + ";\n".join(b[1]) + "]" for b in bins], [b[2] for b in bins]
+
+
+def size_bucket(n):
+    for b in (1, 3, 16, 64, 128, 256, 512, 1024, 4096):
+        if n <= b:
+            return f"<={b}"
+    return ">4096"
+
+
+def size_describe(spec):
+    frs = spec["frames"]
+    if spec["kind"] == "ens":
+        return f"ConformerEnsemble of {len(frs)} conformer(s) x {frs[0][0]} atoms written by {spec['how']}"
+    if len(frs) == 1:
+        return f"{spec['classes'][0]} of {frs[0][0]} atoms written by {spec['how']}"
+    return f"{len(frs)} geometries of {[f[0] for f in frs[:6]]}{'...' if len(frs) > 6 else ''} atoms written one after another by {spec['how']}"
+
+
 # ------------------------------------------------------------------ main
 HEAD = ("From Coq Require Import List ZArith NArith QArith String Ascii.\n"
         "From Molli Require Import Common.ParseStr Model.Parse Model.XyzText Gen.XyzElements.\n"
@@ -795,14 +1205,23 @@ def run(ctx, rep):
                 "coordinate / frame / name / add / delete / append edits; three ways of writing), every write judged against the "
                 "state at that moment and compared with the model's own state evolution inside Coq; every DistanceUnit member "
                 "(aliases included) x {xyz, mol2} x every class-level reader entry point (str / path / stream) x target class "
-                "(library classes, user subclasses, ensemble) x charge-type header, every returned block compared; distinct by "
-                "written text / session / unit cell")
+                "(library classes, user subclasses, ensemble) x charge-type header, every returned block compared; SIZE family: "
+                "pattern geometries (Model/XyzSize.v) with atom counts / frame counts at and around powers of two, decimal powers "
+                "and their multiples (up to 4097 quick, 16385 thorough), every count 0..260 (0..1300 thorough), random counts, as "
+                "single geometries of the three classes, ensembles (atoms x frames, and products), and multi-frame texts, written "
+                "in five ways, judged as text (count line / records / tokens per frame), read back through every xyz entry point "
+                "(first-frame, all-frames, ensemble; str / path / stream / top-level), and compared with the model inside Coq "
+                "within a literal budget; distinct by written text / session / unit cell / size spec")
     rep.trusted += ["harness/c08.py: T-emitters for DistanceUnit / Element, the ast extractor of the scale(...) argument and of the paths of the block loop to its yield (fail-closed; conditions other than the unit guard are opaque), "
                     "exact micro-unit rounding of written coordinates (fractions)",
                     "CPython: format(x, '12.6f') and float() are correctly rounded; str.split / int() (modelled for ASCII)",
                     "CartesianGeometry.scale multiplies the coordinates by its argument (observed by the unit oracle, not proved)",
                     "session edits are applied through molli's public accessors (atoms[i].element, coords rows, name, add_atom, "
-                    "del_atom, ConformerEnsemble.append); the state a write is judged against is read from the same object"]
+                    "del_atom, ConformerEnsemble.append); the state a write is judged against is read from the same object",
+                    "size family: harness/c08.py pat_elem / pat_dec expand the pattern of Model/XyzSize.v (each value checked exactly, in "
+                    "integers, to have the pattern's micro-unit as its nearest); shard literals of the size family are packed into machine "
+                    "integers (Model/XyzSize.v unpack_case decodes them before the model sees them); the text oracle (text_frames / "
+                    "judge_text) uses only str.split, int() and float()"]
     rep.assumptions += ["ASCII names without line breaks", "coordinates are finite floats",
                         "physical unit values used by the oracle and by C08_unit_values: 1 A = 1.8897259886 Bohr = 100 pm = 0.1 nm = 1e5 fm"]
     # --- regenerate Gen (T, S)
@@ -901,6 +1320,18 @@ def run(ctx, rep):
     # --- write / edit / write sessions on one object: oracle + the model's own state evolution inside Coq
     scases, sspecs = run_sessions(ml, ctx, rep, 140 if not ctx.thorough else 1200)
     bad3 = vlib.run_shards(ctx, rep, "session", HEAD_S, "(chk_xyz_session element_symbols)", scases, shard=70)
+    # --- SIZE family: atom / frame counts at and around block lengths
+    zbins, zspecs = run_size(ml, ctx, rep)
+    bad4 = vlib.run_shards(ctx, rep, "size", HEAD_Z, "(chk_xyz_size_packed element_symbols element_names)", zbins, shard=1,
+                           case_type="list pcase")
+    has_size = any(v.sig.startswith("C08:xyz:size") for v in rep.violations)
+    if bad4 is None:
+        vlib.broken_obligation(rep, "corr_size", json.dumps(rep.extra.get("shard_errors", ""))[-1500:], has_size)
+    elif bad4:
+        for i in bad4[:10]:
+            rep.violate("C08:xyz:model-mismatch:size", f"model and implementation disagree on a case of the size family (shard {i}: "
+                        + "; ".join(size_describe(s) for s in zspecs[i][:5]) + ", ...)",
+                        {"kind": "size-shard", "specs": zspecs[i][:40]}, no_input=not has_size)
     if bad3 is None:
         vlib.broken_obligation(rep, "corr_session", json.dumps(rep.extra.get("shard_errors", ""))[-1500:],
                                any(v.sig.startswith("C08:xyz:session") for v in rep.violations))
@@ -951,6 +1382,11 @@ def replay(ctx, data):
             v = judge_session(ml, data["spec"], r[1][0])
             if v:
                 out.append(vlib.Violation(v[0], v[1]))
+    elif data.get("kind") in ("size", "size-shard"):
+        for spec in ([data["spec"]] if data["kind"] == "size" else data["specs"]):
+            v, _text, _obs, _used = size_case(ml, ctx, spec)
+            if v:
+                out.append(vlib.Violation(v[0], f"{size_describe(spec)}: {v[1]}"))
     elif data.get("kind") == "roundtrip":
         text = data["text"]
         back = c10.observe(ml, "xyz", text)
